@@ -1,6 +1,8 @@
 package ocr2keepers
 
 import (
+	"bytes"
+	stdjson "encoding/json"
 	"fmt"
 	"math/big"
 
@@ -46,9 +48,22 @@ func (observation AutomationObservation) Encode() ([]byte, error) {
 	return json.Marshal(observation)
 }
 
+// unmarshalUntrusted decodes bytes received from another node with encoding/json.
+// goccy/go-json (v0.10.2) writes past the end of a fixed-size array field ([32]byte ids and
+// hashes) when the JSON array is shorter than the Go array: neighbouring fields and
+// unrelated heap objects get overwritten and the process can crash with a fault that
+// recover() does not catch. Input without any JSON value never reaches that code and
+// keeps its established error text.
+func unmarshalUntrusted(data []byte, v interface{}) error {
+	if len(bytes.TrimSpace(data)) == 0 {
+		return json.Unmarshal(data, v)
+	}
+	return stdjson.Unmarshal(data, v)
+}
+
 func DecodeAutomationObservation(data []byte, utg types.UpkeepTypeGetter, wg types.WorkIDGenerator) (AutomationObservation, error) {
 	ao := AutomationObservation{}
-	err := json.Unmarshal(data, &ao)
+	err := unmarshalUntrusted(data, &ao)
 	if err != nil {
 		return AutomationObservation{}, err
 	}
